@@ -6,7 +6,7 @@ from ..expr import access_path, path_str, reaching_defs, norm_cond, origins, lea
 from .common import strip_casts, short, comparison
 
 UNITS = ['sdk/src/trace/tracer.cc', 'sdk/src/common/random.cc', 'sdk/src/trace/random_id_generator.cc']
-DRIVERS = ['api_context.cc']
+DRIVERS = ['api_context.cc', 'trace_headers.cc']
 CANARIES = ['c05_canary.cc']
 
 EXPLANATION = (
@@ -485,12 +485,43 @@ def rule_r5(ck, prog, rule='C05.R5'):
                'context stack has thread storage' if st[0]['storage'] == 'thread' else 'the runtime context stack is shared between threads: another thread\'s active span becomes the parent')
 
 
+def rule_r6(ck, prog, rule='C05.R6'):
+    """every inline StartSpan overload of the API Tracer hands each of its parameters (name, attributes, links, options) on to the
+    overload it forwards to: an overload that drops `options` silently ignores the explicit parent / root marker / kind"""
+    cnt = 0
+    for f in sorted(prog.functions('trace::Tracer::StartSpan'), key=lambda x: x.key):
+        if not f.blocks or not f.qn.startswith('opentelemetry::trace::Tracer'):
+            continue
+        inner = [n for n in f.nodes if n['k'] == 'call' and strip_targs(n.get('c', '')).endswith('trace::Tracer::StartSpan')]
+        if len(inner) != 1:
+            continue
+        cnt += 1
+        call = inner[0]
+        used = set()
+        for a in call.get('args', []):
+            if a is None or a < 0:
+                continue
+            for j in f.subtree(a):
+                if f.nodes[j]['k'] == 'ref' and f.nodes[j].get('sk') == 'param':
+                    used.add(f.nodes[j]['id'])
+        missing = [p['name'] for p in f.params if p['id'] not in used]
+        defaulted = bool(call.get('defargs'))
+        site = 'forwards-all(%s)' % ','.join(re.sub(r'opentelemetry::|std::|const | &', '', p['t'])[:22] for p in f.params[1:])
+        ok = not missing and not defaulted
+        ck.verdict(ok, rule, f, site, call, 'name, attributes, links and options are all handed on' if ok else
+                   'this StartSpan overload does not hand on %s%s: the span is started as if the caller had not supplied it (explicit parent, root marker, kind and timestamps live in the options)' %
+                   (', '.join(missing) or 'every parameter', ' (the callee\'s default is used instead)' if defaulted else ''))
+    if cnt < 6:
+        raise AnalysisBroken('only %d inline StartSpan overloads instantiated in the driver unit (6 expected)' % cnt)
+
+
 def run(ck, prog):
     ck.doc('C05.R1', 'bit provenance of the flags byte: sampled bit = sampler decision, only level-1 bits', 2)
     ck.doc('C05.R2', 'parent precedence decision table (6 scenarios over restricted reaching definitions); IsRootSpan/GetSpan report what the Context stores', 8)
     ck.doc('C05.R3', 'sources of trace id, span id, remote flag and trace state of the new context', 4)
     ck.doc('C05.R4', 'not-recording edge => NoopSpan with the same context; recording edge => SDK Span', 2)
     ck.doc('C05.R5', 'thread storage of the random engine, its seeding guard and the context stack; per-thread seed', 4)
+    ck.doc('C05.R6', 'every inline StartSpan overload of the API Tracer forwards all of its parameters', 6)
     cf = prog.function('canary::c05::BadTracer::StartSpan')
     with ck.canary('C05.R1'):
         rule_r1(ck, prog, cf)
@@ -503,4 +534,5 @@ def run(ck, prog):
     sc = rule_r3(ck, prog, f, g, rd, vid)
     rule_r4(ck, prog, f, g, rd, sc)
     rule_r5(ck, prog)
+    rule_r6(ck, prog)
     return {}
